@@ -79,8 +79,8 @@ Coarse == { [cs |-> 4, ox |-> 0, oy |-> 0, rc |-> FR, cc |-> FC],
             [cs |-> 16, ox |-> -5, oy |-> -3, rc |-> 1, cc |-> 1],
             [cs |-> 16, ox |-> 4, oy |-> 4, rc |-> 2, cc |-> 2],
             [cs |-> 8, ox |-> 40, oy |-> 40, rc |-> 2, cc |-> 2],       \* no overlap
-            [cs |-> 6, ox |-> -1, oy |-> -3, rc |-> 3, cc |-> 3],        \* non-integer ratio 1.5: up to 4 centres per cell
-            [cs |-> 10, ox |-> 1, oy |-> -5, rc |-> 2, cc |-> 2] }       \* ratio 2.5
+            [cs |-> 6, ox |-> -1, oy |-> -1, rc |-> 3, cc |-> 3],        \* non-integer ratio 1.5: up to 4 centres per cell
+            [cs |-> 10, ox |-> 1, oy |-> 1, rc |-> 2, cc |-> 2] }       \* ratio 2.5
 PointSets == { << <<2, 2>> >>, << <<2, 2>>, <<6, 2>> >>, << <<4, 4>>, <<4, 4>> >>, << <<0, 0>>, <<8, 8>>, <<0, 8>> >>,
                << <<-10, 3>>, <<30, 3>> >>, << <<6, 6>>, <<2, 6>>, <<6, 2>> >>,
                \* clustered points within half a cell of one centre, the later ones closer
